@@ -1,6 +1,6 @@
 SPECIFICATION Spec
 INVARIANT Bounded
-INVARIANT MarkerOnlyAtBack
+PROPERTY AppendWhenRoom
 PROPERTY OlderIntact
 PROPERTY OverflowAtBack
 PROPERTY FifoPop
